@@ -331,7 +331,7 @@ class Sequencer(object):
                 try:
                     i = instr.names.index(instr.name)
                 except:
-                    i = 1
+                    i = instr.instrument_nr
                 self.set_instrument(channels[x], i)
             else:
                 self.set_instrument(channels[x], 1)
